@@ -1,8 +1,9 @@
 """C01: check configuration (PROPS_ENTRY, consumed by ./check and gen_manifest.py) and the list of lemmas that make up
 the property file (SPEC_ENTRY, consumed by tools/mkprops.py)."""
-PROPS_ENTRY = {'models': ['Model/Queue.v'],
+PROPS_ENTRY = {'models': ['Model/Queue.v', 'Model/Init.v', 'Model/InitSpec.v'],
  'design_ref': 'DESIGN.md 3.0, 3 C01',
- 'assumptions': ['caller contract of add: buffers non-empty and shorter than 2^32 (bufs_ok)', 'sequentially consistent memory'],
+ 'assumptions': ['driver level: every driver is also constructed with each subset of the ring features (scenario c08-ring-features-*, monitors 852 / 853 of C08): each of its queues gets exactly the negotiated flags, so an indirect table is only ever published on a queue for which RING_INDIRECT_DESC was negotiated; a quarter of the queue histories run on the legacy layout',
+                 'caller contract of add: buffers non-empty and shorter than 2^32 (bufs_ok)', 'sequentially consistent memory'],
  'trusted_extra': ['harness reference device walks chains through device addresses resolved by the ledger Hal']}
 
 SPEC_ENTRY = {'title': "Every published buffer chain is well-formed and describes the caller's buffers",
